@@ -304,10 +304,12 @@ variable {s : St}
 
 /-- Registry well-formedness: every name/symbol is bound to an existing unit. -/
 def Reg (s : St) : Prop :=
-  (∀ e ∈ s.unitBySym, e.2 < s.units.length) ∧ (∀ e ∈ s.unitByName, e.2 < s.units.length)
+  (∀ e ∈ s.unitBySym, e.2 < s.units.length) ∧ (∀ e ∈ s.unitByName, e.2 < s.units.length) ∧
+  (∀ e ∈ s.pfxBySym, (e.2.base = 0 ↔ e.2.exp = 0))
 
 theorem go_some {s : St} {cs : List Char} {i fuel : Nat} {p : Pfx} {u : UId}
-    (h : resolveSymbol.go s cs i fuel = some (p, u)) : ∃ k, lookup k s.unitBySym = some u := by
+    (h : resolveSymbol.go s cs i fuel = some (p, u)) :
+    (∃ k, lookup k s.unitBySym = some u) ∧ (∃ k, lookup k s.pfxBySym = some p) := by
   induction fuel generalizing i with
   | zero => simp [resolveSymbol.go] at h
   | succ fuel ih =>
@@ -315,7 +317,8 @@ theorem go_some {s : St} {cs : List Char} {i fuel : Nat} {p : Pfx} {u : UId}
     split at h
     · cases h
     · split at h
-      · next p' u' hp hu => injection h with h; injection h with h1 h2; subst h2; exact ⟨_, hu⟩
+      · next p' u' hp hu =>
+        injection h with h; injection h with h1 h2; subst h1; subst h2; exact ⟨⟨_, hu⟩, ⟨_, hp⟩⟩
       · exact ih h
 
 theorem resolveSymbol_inv (h : Inv s) (hr : Reg s) (text : String) : Inv (s.resolveSymbol text).1 := by
@@ -325,24 +328,25 @@ theorem resolveSymbol_inv (h : Inv s) (hr : Reg s) (text : String) : Inv (s.reso
   · simp only
     split
     · next p u hgo =>
-      obtain ⟨k, hk⟩ := go_some hgo
+      obtain ⟨⟨k, hk⟩, _⟩ := go_some hgo
       exact pmulUnit_inv h p (hr.1 _ (lookup_mem hk))
     · split <;> exact h
 
 /-! ### the registries stay well-formed -/
 
 theorem Reg.mono {s s' : St} (hr : Reg s) (hs : s'.unitBySym = s.unitBySym) (hn : s'.unitByName = s.unitByName)
-    (hl : s.units.length ≤ s'.units.length) : Reg s' := by
-  refine ⟨?_, ?_⟩
+    (hp : s'.pfxBySym = s.pfxBySym) (hl : s.units.length ≤ s'.units.length) : Reg s' := by
+  refine ⟨?_, ?_, ?_⟩
   · intro e he; rw [hs] at he; exact Nat.lt_of_lt_of_le (hr.1 e he) hl
-  · intro e he; rw [hn] at he; exact Nat.lt_of_lt_of_le (hr.2 e he) hl
+  · intro e he; rw [hn] at he; exact Nat.lt_of_lt_of_le (hr.2.1 e he) hl
+  · intro e he; rw [hp] at he; exact hr.2.2 e he
 
 theorem newUnit_reg {s : St} (hr : Reg s) (p : Pfx) (fs : Factors) (d : Dim) : Reg (s.newUnit p fs d).1 := by
   have hl := (newUnit_ext s p fs d).len
   unfold newUnit at hl ⊢
   split
   · exact hr
-  · next hnone => simp only [hnone] at hl; exact hr.mono rfl rfl hl
+  · next hnone => simp only [hnone] at hl; exact hr.mono rfl rfl rfl hl
 
 theorem bindName_reg {s : St} (hr : Reg s) {a : Nat} (ha : a < s.units.length) (name : Option String) :
     Reg (s.bindName a name) := by
@@ -353,13 +357,13 @@ theorem bindName_reg {s : St} (hr : Reg s) {a : Nat} (ha : a < s.units.length) (
     simp only
     split
     · exact hr
-    · refine ⟨hr.1, ?_⟩
+    · refine ⟨hr.1, ?_, hr.2.2⟩
       intro e he
       simp only at he
       split at he
-      · exact hr.2 e he
+      · exact hr.2.1 e he
       · rcases List.mem_append.1 he with he | he
-        · exact hr.2 e he
+        · exact hr.2.1 e he
         · simp at he; subst he; exact ha
 
 theorem bindSym_reg {s : St} (hr : Reg s) {a : Nat} (ha : a < s.units.length) (sym : Option String) :
